@@ -325,6 +325,45 @@ theorem modeKeeper_lenPrefixed {body : Enc → ERes Unit} (hb : ModeKeeper body)
           | err k e3 => rw [hr] at h3; exact Modes.trans h12 h3
           | panic s => trivial
 
+theorem modeKeeper_lenPrefixedTry {body : Enc → ERes Unit} (hb : ModeKeeper body) :
+    ModeKeeper (Enc.lenPrefixedTry body) := by
+  intro e
+  unfold Enc.lenPrefixedTry
+  have hplace : RM (e.place 2) e := by
+    unfold Enc.place Enc.reserve
+    simp only
+    by_cases h1 : e.offset + 2 > e.maxSize
+    · simp only [h1, ↓reduceIte, RM]; exact Modes.refl e
+    · simp only [h1, ↓reduceIte, RM]; exact ⟨rfl, rfl⟩
+  cases hpl : e.place 2 with
+  | panic s => trivial
+  | err k e1 => rw [hpl] at hplace; exact hplace
+  | ok start e1 =>
+    rw [hpl] at hplace
+    have h1 : Modes e e1 := hplace
+    simp only
+    have hbody := hb e1
+    cases hbd : body e1 with
+    | panic s => trivial
+    | err k e2 => rw [hbd] at hbody; exact Modes.trans h1 hbody
+    | ok u e2 =>
+      rw [hbd] at hbody
+      have h12 : Modes e e2 := Modes.trans h1 hbody
+      simp only
+      cases hls : e2.lenSincePlace start 2 with
+      | panic s => trivial
+      | err => trivial
+      | ok len =>
+        simp only
+        by_cases hbig : len > 65535
+        · simp only [hbig, ↓reduceIte]; exact h12
+        · simp only [hbig, ↓reduceIte]
+          have h3 := placeReplace_modes e2 start 2 len
+          cases hr : e2.placeReplace start 2 (fun x => x.emitU16 len) with
+          | ok u3 e3 => rw [hr] at h3; exact Modes.trans h12 h3
+          | err k e3 => rw [hr] at h3; exact Modes.trans h12 h3
+          | panic s => trivial
+
 theorem modeKeeper_errOther (f : Enc → ERes Unit) (c : Prop) [Decidable c] (hf : ModeKeeper f) :
     ModeKeeper (fun e => if c then .err .other e else f e) := by
   intro e
@@ -355,6 +394,48 @@ theorem modeKeeper_emitTypeSet (ts : TypeSet) : ModeKeeper (emitTypeSet ts) := b
     · exact modeKeeper_emitU8 _
     · exact modeKeeper_emitU8 _
     · exact modeKeeper_emitU8 _
+
+theorem modeKeeper_ifErr (f : Enc → ERes Unit) (c : Prop) [Decidable c] (hf : ModeKeeper f) :
+    ModeKeeper (fun e => if c then .err .other e else f e) := by
+  intro e
+  by_cases hc : c
+  · show match (if c then ERes.err EncErr.other e else f e) with
+      | .ok _ e' => e'.canonicalForm = e.canonicalForm ∧ e'.nameEncoding = e.nameEncoding
+      | .err _ e' => e'.canonicalForm = e.canonicalForm ∧ e'.nameEncoding = e.nameEncoding
+      | .panic _ => True
+    rw [if_pos hc]; exact ⟨rfl, rfl⟩
+  · show match (if c then ERes.err EncErr.other e else f e) with
+      | .ok _ e' => e'.canonicalForm = e.canonicalForm ∧ e'.nameEncoding = e.nameEncoding
+      | .err _ e' => e'.canonicalForm = e.canonicalForm ∧ e'.nameEncoding = e.nameEncoding
+      | .panic _ => True
+    rw [if_neg hc]; exact hf e
+
+theorem modeKeeper_emitSvcVal (v : SvcVal) : ModeKeeper (emitSvcVal v) := by
+  cases v with
+  | mandatory keys =>
+    refine modeKeeper_ifErr _ _ (modeKeeper_seqAll _ ?_)
+    intro f hf; simp only [List.mem_map] at hf; obtain ⟨k, _, rfl⟩ := hf; exact modeKeeper_emitU16 k
+  | alpn ids =>
+    refine modeKeeper_ifErr _ _ (modeKeeper_seqAll _ ?_)
+    intro f hf; simp only [List.mem_map] at hf; obtain ⟨k, _, rfl⟩ := hf; exact modeKeeper_emitCharacterData k
+  | noDefaultAlpn => exact modeKeeper_nothing
+  | port p => exact modeKeeper_emitU16 p
+  | ipv4hint addrs =>
+    refine modeKeeper_seqAll _ ?_
+    intro f hf; simp only [List.mem_map] at hf; obtain ⟨k, _, rfl⟩ := hf; exact modeKeeper_emitSlice k
+  | ech d => exact modeKeeper_emitSlice d
+  | ipv6hint addrs =>
+    refine modeKeeper_seqAll _ ?_
+    intro f hf; simp only [List.mem_map] at hf; obtain ⟨k, _, rfl⟩ := hf; exact modeKeeper_emitPairs k
+  | unknown d => exact modeKeeper_emitSlice d
+
+theorem modeKeeper_emitSvcParams : ∀ (ps : List (Nat × SvcVal)) (last : Option Nat),
+    ModeKeeper (emitSvcParams last ps)
+  | [], last => by unfold emitSvcParams; exact modeKeeper_nothing
+  | (k, v) :: rest, last => by
+    unfold emitSvcParams
+    exact modeKeeper_ifErr _ _ (modeKeeper_seq (modeKeeper_emitU16 k)
+      (modeKeeper_seq (modeKeeper_lenPrefixedTry (modeKeeper_emitSvcVal v)) (modeKeeper_emitSvcParams rest (some k))))
 
 theorem modeKeeper_emitRData (t : Nat) (d : RData) (hp : d.proved = true) : ModeKeeper (emitRData t d) := by
   cases d <;> first | (simp [RData.proved] at hp; done) | skip
@@ -435,6 +516,14 @@ theorem modeKeeper_emitRData (t : Nat) (d : RData) (hp : d.proved = true) : Mode
     · exact modeKeeper_emitU16 _
     · exact eo _ _ (modeKeeper_emitU16 _)
     · exact modeKeeper_emitSlice _
+  case svcb prio target ps =>
+    refine modeKeeper_withRdataBehavior (modeKeeper_seqAll _ ?_) _
+    intro f hf
+    simp only [List.mem_cons, List.not_mem_nil, or_false] at hf
+    rcases hf with rfl | rfl | rfl
+    · exact modeKeeper_emitU16 _
+    · exact modeKeeper_emitName _
+    · exact modeKeeper_emitSvcParams _ _
   case nsec next ts =>
     refine modeKeeper_withRdataBehavior (modeKeeper_seqAll _ ?_) _
     intro f hf
